@@ -19,6 +19,7 @@ fn main() {
     let n_adv: u64 = arg(&args, "--adversarial").and_then(|s| s.parse().ok()).unwrap_or(0);
     let n_faithful: u64 = arg(&args, "--faithful").and_then(|s| s.parse().ok()).unwrap_or(0);
     let n_cycles: u64 = arg(&args, "--cycles").and_then(|s| s.parse().ok()).unwrap_or(0);
+    let n_races: u64 = arg(&args, "--races").and_then(|s| s.parse().ok()).unwrap_or(0);
     let n_wrap: u64 = arg(&args, "--wrap").and_then(|s| s.parse().ok()).unwrap_or(0);
     let len: usize = arg(&args, "--len").and_then(|s| s.parse().ok()).unwrap_or(60);
     if args.iter().any(|a| a == "--state") { verif_harness::sim::STATE_EVENTS.store(true, std::sync::atomic::Ordering::Relaxed); }
@@ -36,6 +37,7 @@ fn main() {
     for i in 0..n_adv { scripts.push(gen::scripted(seed.wrapping_mul(2_000_003).wrapping_add(i), len, true)); }
     for i in 0..n_faithful { scripts.push(gen::faithful(seed.wrapping_mul(3_000_017).wrapping_add(i), len)); }
     for i in 0..n_cycles { scripts.push(gen::cycles(seed.wrapping_mul(5_000_011).wrapping_add(i), 2 + (i % 4) as usize)); }
+    for i in 0..n_races { scripts.push(gen::races(seed.wrapping_mul(7_000_003).wrapping_add(i))); }
     for i in 0..n_wrap { scripts.push(gen::wraparound(seed.wrapping_add(i), 66000)); }
 
     if let Some(only) = arg(&args, "--only").and_then(|s| s.parse::<usize>().ok()) { scripts = vec![scripts[only - 1].clone()]; }
